@@ -285,7 +285,8 @@ pub fn arb_case(max_blocks: usize) -> impl Strategy<Value = Case> {
                     s2.parent = None;
                     s2.back = None;
                     s2.bad_tx = Some((
-                        match sel % 5 {
+                        match sel % 6 {
+                            5 => crate::adversary::TxEdit::OverspendWrap, // outputs that sum to 2^64 + the input
                             4 => crate::adversary::TxEdit::StakeTypeSpentInput, // a staking-typed re-spend
                             0 => crate::adversary::TxEdit::SpentInput,
                             1 => crate::adversary::TxEdit::NonExistentInput,
@@ -306,7 +307,7 @@ pub fn arb_case(max_blocks: usize) -> impl Strategy<Value = Case> {
 }
 
 pub fn run(ctx: &mut Ctx) {
-    ctx.rule = "histories of honestly produced blocks (linear and forked, up to 40 blocks; every eighth position a two-block side chain whose second block spends a spent / non-existent / expired output or carries two spends of one output or a staking-typed re-spend of a spent output, so that a reorganisation fails part-way and the history continues on the honest chain; gp in {4,5,6,8,12,100} so the rebroadcast window wraps several times; fees 0..4e8, routing paths, golden-ticket payouts, genesis treasury 0 or up to 1e12 so the rebroadcast payout multiplier exceeds 1 and the 5% cap regime is reached, issuance amounts from 1 nolan to 2^58, with any genesis treasury) delivered to a node; after every block accepted onto the longest chain: sum (u128) of spendable in-window non-bound outputs of the node's own utxoset + tip treasury + graveyard + previous_block_unpaid + total_fees == amount issued in the genesis block; every accepted user transaction has outputs <= inputs in u128; the node's own supply check must not abort. evaluations = accepted blocks checked. non-trivial = history has >= 1 fee-paying transaction and >= 1 golden-ticket payout; distinct by case digest. (overflow-based minting by adversarial transactions is exercised in C01: edits Overspend / OverspendWrap)".into();
+    ctx.rule = "histories of honestly produced blocks (linear and forked, up to 40 blocks; every eighth position a two-block side chain whose second block spends a spent / non-existent / expired output or carries two spends of one output or a staking-typed re-spend of a spent output or outputs summing to 2^64 + the input, so that a reorganisation fails part-way and the history continues on the honest chain; gp in {4,5,6,8,12,100} so the rebroadcast window wraps several times; fees 0..4e8, routing paths, golden-ticket payouts, genesis treasury 0 or up to 1e12 so the rebroadcast payout multiplier exceeds 1 and the 5% cap regime is reached, issuance amounts from 1 nolan to 2^58, with any genesis treasury) delivered to a node; after every block accepted onto the longest chain: sum (u128) of spendable in-window non-bound outputs of the node's own utxoset + tip treasury + graveyard + previous_block_unpaid + total_fees == amount issued in the genesis block; every accepted user transaction has outputs <= inputs in u128; the node's own supply check must not abort. evaluations = accepted blocks checked. non-trivial = history has >= 1 fee-paying transaction and >= 1 golden-ticket payout; distinct by case digest. (overflow-based minting by adversarial transactions is exercised in C01: edits Overspend / OverspendWrap)".into();
     let cases = ctx.tier.pick(500u32, 20_000);
     pbt_run(ctx, "supply", cases, arb_case(40), |c, case, counting| eval(c, case, counting));
 }
